@@ -2,12 +2,13 @@
 import json, subprocess, sys, xml.etree.ElementTree as ET, os, tempfile
 b = json.load(open("/root/.vp/BASELINE.json"))
 out = tempfile.mktemp(suffix=".xml")
-cmd = b["cmd"].replace("<file>", out)
+tree = sys.argv[1] if len(sys.argv) > 1 else "/repo"
+cmd = b["cmd"].replace("<file>", out).replace("cd /repo", "cd " + tree)
 subprocess.run(cmd, shell=True, stdout=subprocess.DEVNULL, stderr=subprocess.DEVNULL)
 passed = set()
 for tc in ET.parse(out).getroot().iter("testcase"):
     if not any(ch.tag in ("failure", "error", "skipped") for ch in tc):
-        passed.add(tc.get("classname") + "::" + tc.get("name"))
+        passed.add((tc.get("classname") + "::" + tc.get("name")).replace(tree, "/repo"))
 os.unlink(out)
 missing = [t for t in b["stable_pass"] if t not in passed]
 print("stable_pass %d, passed now %d, stable tests not passing: %d" % (len(b["stable_pass"]), len(passed), len(missing)))
